@@ -1,3 +1,4 @@
+import Vflow.Proofs.EqnsV9
 import Vflow.Model.V9
 import Vflow.Proofs.ReaderLemmas
 /-!
@@ -49,18 +50,6 @@ theorem readSpecs_mono (n : Nat) (acc : List Spec) : Mono (fun r => readSpecs n 
 
 /-! unfolding equations of `decFields`, stated by hand: the automatically generated ones need a
 deeper recursion limit than the default (the body mentions `interpret` / the element table) -/
-theorem decFields_nil (r : Rd) (acc : Record) : decFields [] r acc = (.ok acc, r) := rfl
-
-set_option maxRecDepth 10000 in
-theorem decFields_cons (f : Spec) (fs : List Spec) (r : Rd) (acc : Record) :
-    decFields (f :: fs) r acc =
-      match r.readN f.len with
-      | none => (.error .short, r)
-      | some (b, r1) =>
-        match lookupElem 0 f.id with
-        | none => (.error .unknownElem, r1)
-        | some (fid, t) => decFields fs r1 (acc ++ [⟨fid, 0, interpret b t⟩]) := rfl
-
 theorem decFields_mono (fs : List Spec) (acc : Record) : Mono (fun r => decFields fs r acc) := by
   induction fs generalizing acc with
   | nil =>
